@@ -195,7 +195,12 @@ class NB:
                 other = self.t("in", oshape, dt, q2[0], q2[1])
                 self.inputs.append(other)
         oq = self.quant(dt) if code not in ("MAXIMUM", "MINIMUM") else (X["scale"], X["zp"])
-        o = self.out(code.lower(), shape, dt, oq)
+        odt = dt
+        if self.profile == "wide" and code in ("ADD", "SUB", "MUL") and dt in ("int8", "int16") and d(st.integers(0, 5)) == 0:
+            # an output wider than the inputs: not something the converter emits, but a structurally valid model the compiler accepts or must refuse cleanly
+            odt = d(st.sampled_from(["int16", "int32"])) if dt == "int8" else "int32"
+            oq = (oq[0], 0)
+        o = self.out(code.lower(), shape, odt, oq)
         ins = [x, other] if d(st.booleans()) else [other, x]
         if self.tensors[ins[0]]["shape"] != shape and code in ("SUB",) and self.profile == "exact" and False:
             ins = [x, other]
